@@ -4,7 +4,8 @@ from .. import core, epflow, gen, metacheck, oracles
 from .c11 import text_of
 
 THEOREMS = ["C09_perm", "C09_perm_steps", "C09_perm_annual", "C09_subdivide", "C09_subdivide_annual", "C09_same_results",
-            "C09_normalize_perm", "C09_normalize_subdivide", "C09_perm_declared", "C09_subdivide_declared"]
+            "C09_normalize_perm", "C09_normalize_subdivide", "C09_perm_declared", "C09_subdivide_declared",
+            "C09_subdivide_any_values"]
 
 VEC_FIELDS = [("used", "epus_t"), ("used", "nepus_t"), ("used", "cgnus_t"), ("prod", "t"), ("prod", "epus_t"),
               ("exp", "t"), ("exp", "grid_t"), ("exp", "nepus_t"), ("del", "grid_t"), ("del", "onst_t")]
